@@ -228,4 +228,8 @@ example : iterMatch (insert [[43]] 7 (empty : Node Nat)) [43] = [7, 7] := by tri
 
 end Examples
 
+/-- T1: the five methods of `MQTTMatcher` the trie model follows statement by statement have the modelled statement structure
+in the current source (no added fast path, counter or early return) - extracted on this run -/
+theorem c11_matcher_shape : Gen.matcherShapeOk = true := rfl
+
 end Paho
